@@ -24,6 +24,8 @@ func Run(c *vk.Ctx) {
 			replayStatic(c)
 		} else if probe.Sub == "capacity" {
 			replayCapacity(c)
+		} else if probe.Sub == "extent" {
+			replayExtent(c)
 		} else {
 			replayDynamic(c)
 		}
@@ -37,6 +39,8 @@ func Run(c *vk.Ctx) {
 		dynamic(c)
 	case "capacity":
 		capacity(c)
+	case "extent":
+		extent(c)
 	default:
 		vk.Fatalf("unknown sub %q", c.Sub)
 	}
